@@ -32,24 +32,31 @@ LEVEL = 'model_checking'
 TECHNIQUE = ('explicit-state breadth-first search over operation histories of the real Database object '
              '(state = history, replayed on fresh objects), every random answer of split/sample enumerated '
              'through owned seams, each step compared with a naive reference table')
-RULE = ('one case per executed operation: (root table, history, operation, random answer).  Mutating operations '
-        '(remove x conditions, add_column / define_variable x formulas, scale_column, panel, build_panel_map) are '
-        'expanded breadth-first to the depth bound, states merged on the canonical form of the real object '
-        '(index labels, columns, dtypes, every cell, panel column, individual map, excludedData); observing '
-        'operations are executed in every expanded state with every permutation (split) / index vector '
-        '(sample_*; vectors over at most D distinct rows) / position list (extract_rows).  A case is non-trivial '
-        'when it is executed after at least one earlier operation or with a non-identity random answer; '
-        'distinct = distinct (root, history, operation, answer).')
+RULE = ('one case per executed operation: (root table, history, operation, random answer / argument).  Mutating '
+        'operations (remove x 5|9 conditions, add_column / define_variable x 3 formulas, scale_column x 2|3, panel, '
+        'build_panel_map) are expanded breadth-first to depth 3|4 from three root tables, states merged on the canonical '
+        'form of the real object (index labels, columns, dtypes, every cell, panel column, individual map, excludedData); '
+        'in every expanded state every observing operation is executed: split for slices 2,3,5|2,3,4,5 x groups None/id/c '
+        'with every permutation the shuffle can return, sample_with_replacement (size None,1,2) and '
+        'sample_individual_map_with_replacement (size None,2) with every index vector the generator can return '
+        '(length > 3: vectors over at most 2|3 distinct values), extract_rows for every position list of length <= 2, '
+        'the full range, its reverse and list/tuple/range/iterator forms, count for every (column, present value), '
+        'values_from_database, flattening with detected and given identical columns, size queries.  Six hand-written '
+        'chains of 6-7 operations per root go beyond the depth bound.  A case is non-trivial when it is executed after '
+        'at least one earlier operation or with a non-identity random answer; distinct = distinct (root, history, '
+        'operation, answer).  (a|b = quick|thorough)')
 ASSUMPTIONS = [
-    'tables have 5 rows (ids grouped 2-1-2), 4 numeric columns with dyadic values so that the reference arithmetic is exact; '
-    'three root tables: RangeIndex / permuted integer labels with unsorted individual ids / duplicate labels '
-    '(as produced by pd.concat or by the library\'s own sample_with_replacement)',
-    'library randomness enters only through numpy.random.randint, numpy.random.shuffle and DataFrame.sample '
-    '(owned; an unowned call outside an enumerated operation raises a harness error)',
+    'tables have 5 rows (ids grouped 2-1-2) and 4 numeric columns with dyadic values so that the reference arithmetic is '
+    'exact; three root tables: RangeIndex / permuted integer labels with unsorted individual ids / duplicate labels '
+    '(as produced by pd.concat or by the library\'s own sample_with_replacement); VERIF_SEED selects one of five value alphabets',
+    'library randomness enters only through numpy.random.randint, numpy.random.shuffle and DataFrame.sample(frac=1) '
+    '(owned; a call outside an enumerated operation, or a different use of the seams, is a harness error)',
     'excludedData is the number of rows deleted by the most recent remove (the documented per-call meaning)',
-    'formulas are restricted to + - * comparisons and/or on existing columns: nothing is expected to raise inside the engine',
+    'formulas are restricted to + - * comparisons and/or on existing columns: nothing is expected to raise inside the engine; '
+    'refusals (existing column name, out-of-range positions, non-panel flattening) are not part of the alphabet',
     'the panel sort must order the rows by individual id; the order of the rows inside one individual is not fixed by '
     'the statement (pandas sorts unstably): the reference adopts the observed order and counts the event',
+    'fold sizes and the distribution of the samples are not part of the statement and are not checked',
 ]
 ANCHOR_FILES = ['src/biogeme/database.py', 'src/biogeme/tools/database.py']
 DETERMINISM_SLICE = 3
